@@ -319,6 +319,8 @@ def valid(m: Model, op, paced=True):
         return True
     if k == "rmroot":
         return ROOT in t
+    if k in ("out_mkfile", "out_mkdir", "out_rmtree") and paced and (m.inside_tainted(op[1]) or m.eid(op[1]) in m.tainted_ids or m.eid(parent(op[1])) in m.tainted_ids):
+        return False
     if k == "out_mkfile":
         return op[1] not in t and m.kind(parent(op[1])) == "d" and is_under(op[1], OUT)
     if k == "out_mkdir":
@@ -359,9 +361,11 @@ def taint_after(m_before: Model, m: Model, op):
         s = op[1]
         if m_before.kind(s) == "d":
             m.tainted_names.add(s)
+            m.taint(OUT + "/" + op[2])
             for q in m_before.subtree(s):
                 if m_before.kind(q) == "d":
                     m.tainted_names.add(q)
+                    m.taint(OUT + "/" + op[2] + q[len(s):])
     elif k == "movein_tree":
         m.taint(op[2])
         for rel, kind in op[1]:
@@ -441,6 +445,12 @@ def gen_ops(rng: random.Random, m: Model, n, names=("a", "b", "c"), max_depth=3,
         elif k == "drain":
             if ops and ops[-1][0] != "drain":
                 op = ["drain"]
+        elif k in ("out_mkfile", "out_mkdir", "out_rmtree"):
+            # operations on entries that have left the tree (C03 phantom events, C07 liveness)
+            ods = [q for q in m.dirs_in(OUT) if q != OUT]
+            if ods:
+                od = rng.choice(ods)
+                op = [k, od] if k == "out_rmtree" else [k, od + "/" + rng.choice(names)]
         if op is None or not valid(m, op, paced):
             continue
         if op[0] == "rename" and m.kind(op[1]) == "d" and m.eid(op[1]) in m.tainted_ids and rng.random() < 0.5:
